@@ -48,10 +48,11 @@ class _TransactionBase:
             if transaction_item.old is not None:
                 table = self._mdib.context_states if transaction_item.old.is_context_state else self._mdib.states
                 table.remove_object_no_lock(transaction_item.old)
-            else:
+            elif transaction_item.new is not None:
                 table = self._mdib.context_states if transaction_item.new.is_context_state else self._mdib.states
-            table.add_object_no_lock(transaction_item.new)
-            updates_list.append(transaction_item.new.mk_copy(copy_node=False))
+            if transaction_item.new is not None:  # None: a deleted context state, this cannot be reported
+                table.add_object_no_lock(transaction_item.new)
+                updates_list.append(transaction_item.new.mk_copy(copy_node=False))
         return updates_list
 
     def get_state_transaction_item(self, handle: str) -> TransactionItem | None:
